@@ -36,7 +36,7 @@ def record(wd, systems, real_counts=True, tag="recs"):
     return sp, read_ndjson(rp)
 
 
-def judge(wd, systems, recs, procs=6, per_chunk=40):
+def judge(wd, systems, recs, procs=6, per_chunk=40, strict=False):
     """Judge records in chunks of whole systems."""
     by_sys = {}
     for r in recs:
@@ -59,7 +59,7 @@ def judge(wd, systems, recs, procs=6, per_chunk=40):
                 r2["gidx"] = r.get("_gidx", 0)
                 rs.append(r2)
         write_ndjson(rp, rs)
-        r = run_tlc("JudgeActors.tla", "cfg/empty.cfg", env=dict(SYSTEMS=sp, RECS=rp, OUT=op), timeout=2400,
+        r = run_tlc("JudgeActors.tla", "cfg/empty.cfg", env=dict(SYSTEMS=sp, RECS=rp, OUT=op, STRICT="1" if strict else "0"), timeout=2400,
                     name="jact-%s-%d" % (os.path.basename(wd), k), heap="6g")
         if not r["ok"]:
             raise ToolError("actor judge failed: " + r["out"][-2500:])
@@ -101,10 +101,10 @@ def mc_systems(res, wd, systems, recs, spec="MCActorSystem", workers=8, expect_c
     return r["distinct"], None
 
 
-def run_family(res, pid, systems, state_fields, sys_fields, real_counts=True, net_history=False, count_is_property=False):
+def run_family(res, pid, systems, state_fields, sys_fields, real_counts=True, net_history=False, count_is_property=False, strict=False):
     wd = workdir("%s-%s" % (pid, res.tier))
     sp, recs = record(wd, systems, real_counts=real_counts)
-    states, syss = judge(wd, systems, recs)
+    states, syss = judge(wd, systems, recs, strict=strict)
     nstates = 0
     distinct_sys = set()
     conform_ok = True
@@ -239,7 +239,7 @@ def c15(res):
                 "three-level Choice (all positions), RegisterActor::Server(T), WORegisterActor::Server(T); the wrapped model's "
                 "recorded graph (adapter tag stripped after checking it) must conform to ActorSystem.tla instantiated with the "
                 "UNWRAPPED tables, i.e. be isomorphic to the unwrapped system")
-    run_family(res, "C15", systems, STATE_FIELDS["C15"], SYS_FIELDS["C15"], real_counts=False)
+    run_family(res, "C15", systems, STATE_FIELDS["C15"], SYS_FIELDS["C15"], real_counts=False, strict=True)
     scripted_clients(res)
 
 
@@ -266,7 +266,7 @@ def scripted_clients(res):
         s["wrap"] = "script"
         s["scripts"] = [[dict(dst=d, msg=m) for (d, m) in sc] for sc in scripts]
         systems.append(s)
-    run_family(res, "C15s", systems, STATE_FIELDS["C15"], SYS_FIELDS["C15"], real_counts=False)
+    run_family(res, "C15s", systems, STATE_FIELDS["C15"], SYS_FIELDS["C15"], real_counts=False, strict=True)
 
 
 def c04_actor_leg(res):
